@@ -15,7 +15,8 @@
 //   cx.same_solution.<form>  both the complex and the real formulation converged:  ||x_c - x_r|| <= (||r_c|| + ||r_r||)/sigma_min(A) (1+1e-6)
 //                        (exact consequence of x_c - x_r = A^-1 (r_r - r_c); r in long double)
 //   cx.solves.<form>     the complex formulation converged but the real-equivalent one did not return a solution (or vice versa:
-//                        cx.solves.complex), smoothed_aggr_emin on non-Hermitian systems exempt (see C13.json assumptions)
+//                        cx.solves.complex)
+//   smoothed_aggr_emin on non-Hermitian systems: only cx.operator / cx.iters are judged (see C13.json assumptions)
 //   cx.exception.<form>  exception that is neither a Krylov breakdown precondition nor "not supported" nor raised by the other formulation too
 #define AMGCL_PARAM_UNKNOWN(name) throw std::logic_error(std::string("HARNESS: unknown parameter ") + std::string(name))
 #include <complex>
@@ -136,7 +137,11 @@ struct Judged { bool usable = false, conv = false; ld rabs = 0; };
 static Judged judge(const std::string &key, const std::string &tag, Sys &S, const Cfg &g, const Out &o, const Out &other, const std::string &in) {
     Judged J;
     vf::count("runs." + tag);
+    // smoothed_aggr_emin on a non-Hermitian matrix: the energy-minimising prolongation can lose rank (the coarse operator is then
+    // singular or garbage in EVERY formulation, the complex one included); only the operator and iteration-count clauses are judged
+    const bool emin_nh = (g.c == "smoothed_aggr_emin" && !S.herm);
     if (o.threw) {
+        if (emin_nh && !unsupported(o.what) && o.what.find("HARNESS") == std::string::npos) { vf::count("emin_nonhermitian_not_judged." + tag); return J; }
         if (unsupported(o.what)) { vf::count("unsupported." + tag); return J; }
         if (o.what.find("HARNESS") != std::string::npos) { vf::fail("harness.param", key, o.what + in); return J; }
         if (allowed_breakdown(o.what)) { vf::count("breakdown_exception." + tag); return J; }
@@ -148,6 +153,7 @@ static Judged judge(const std::string &key, const std::string &tag, Sys &S, cons
     if (o.levels >= 2) vf::count("levels_ge_2." + tag);
     if (!o.opdiff.empty()) vf::fail("cx.operator." + tag, key, o.opdiff + in);
     if (o.iters > (size_t)g.maxiter + (g.s == "bicgstabl" ? 1 : 0)) vf::fail("cx.iters." + tag, key, vf::KS() << "iters=" << o.iters << in);
+    if (emin_nh) { vf::count("emin_nonhermitian_not_judged." + tag); return J; }
     if (!c13::all_finite(o.x) || !std::isfinite(o.resid)) { vf::count("nonfinite." + tag); return J; }
     J.usable = true;
     J.rabs = sg::true_residual(S.A, S.f, o.x);
@@ -192,18 +198,15 @@ int main(int argc, char **argv) {
                     if (first) { Jc = judge(key, "complex", S, g, oc, orl, in0); first = false; }
                     Judged Jr = judge(key, tag, S, g, orl, oc, in);
                     if (!orl.threw && (orl.levels >= 2 || orl.iters >= 2)) any2 = true;
-                    bool emin_exempt = (c == "smoothed_aggr_emin" && !S.herm);
                     if (Jc.conv && Jr.conv) {
                         ld d = 0; for (int i = 0; i < S.A.n; ++i) d += sg::abs2_ld(oc.x[i] - orl.x[i]); d = sqrtl(d);
                         ld lim = (Jc.rabs + Jr.rabs) / (ld)S.sv.smin * (1 + 1e-6L) + 64 * (ld)c13::U * sg::norm2_ld(oc.x);
                         vf::count("same_solution_compared." + tag);
                         if (!(d <= lim)) vf::fail("cx.same_solution." + tag, key, vf::KS() << "||x_c - x_r||=" << (double)d << " > (||r_c||+||r_r||)/sigma_min=" << (double)lim << in);
                     } else if (Jc.conv && !Jr.conv && !orl.threw) {
-                        if (emin_exempt) vf::count("emin_nonhermitian_not_judged." + tag);
-                        else vf::fail("cx.solves." + tag, key, vf::KS() << "complex formulation converged (" << oc.iters << " its, " << oc.resid << "), real-equivalent did not: " << orl.iters << " its, reported " << orl.resid << in);
+                        vf::fail("cx.solves." + tag, key, vf::KS() << "complex formulation converged (" << oc.iters << " its, " << oc.resid << "), real-equivalent did not: " << orl.iters << " its, reported " << orl.resid << in);
                     } else if (Jr.conv && !Jc.conv && !oc.threw && kind == 0 && form == 0) {
-                        if (emin_exempt) vf::count("emin_nonhermitian_not_judged.complex");
-                        else vf::fail("cx.solves.complex", key, vf::KS() << "real-equivalent formulation converged (" << orl.iters << " its, " << orl.resid << "), complex one did not: " << oc.iters << " its, reported " << oc.resid << in);
+                        vf::fail("cx.solves.complex", key, vf::KS() << "real-equivalent formulation converged (" << orl.iters << " its, " << orl.resid << "), complex one did not: " << oc.iters << " its, reported " << oc.resid << in);
                     }
                 }
                 if (any2) vf::nontrivial(vf::hstr(key));
